@@ -20,6 +20,7 @@ import (
 
 	"github.com/piotrnar/gocoin/lib/btc"
 	"github.com/piotrnar/gocoin/lib/chain"
+	"github.com/piotrnar/gocoin/lib/others/vshim/vos"
 	"github.com/piotrnar/gocoin/lib/others/vshim/vsched"
 	"github.com/piotrnar/gocoin/lib/utxo"
 
@@ -235,10 +236,87 @@ func scenarios() []scen {
 	}
 }
 
+// ---- file effects are scheduling points; the visible-snapshot invariant ----
+
+var (
+	curSess    *chainx.Sess // session of the execution in progress
+	snapViol   string       // first violation of the visible-snapshot invariant in this execution
+	snapChecks int
+)
+
+// fileHook runs in the thread that is about to perform a mutating file operation.
+// Between two file effects the directory does not change, so checking here (and once
+// at the end) examines every directory state the execution goes through.
+func fileHook(e *vos.Effect) {
+	if vsched.Active() == nil {
+		return
+	}
+	checkVisibleSnapshot()
+	vsched.Effect("file", e.String())
+}
+
+// checkVisibleSnapshot: whenever a file is visible as UTXO.db it must be complete and
+// hold exactly the unspent set of the block named in its header.
+func checkVisibleSnapshot() {
+	s := curSess
+	if s == nil || snapViol != "" {
+		return
+	}
+	b, err := os.ReadFile(s.Dir() + "/d/UTXO.db")
+	if err != nil {
+		return
+	}
+	snapChecks++
+	bad := func(f string, a ...interface{}) { snapViol = fmt.Sprintf(f, a...) }
+	if len(b) < 48 {
+		bad("UTXO.db is visible with only %d bytes", len(b))
+		return
+	}
+	var h [32]byte
+	copy(h[:], b[8:40])
+	nd := s.M.Nodes[h]
+	if nd == nil || !s.M.Valid(nd) {
+		bad("UTXO.db names a block the reference does not know as valid")
+		return
+	}
+	cnt := uint64(0)
+	for i := 0; i < 8; i++ {
+		cnt |= uint64(b[40+i]) << (8 * i)
+	}
+	got := refchain.UTXO{}
+	off := 48
+	for i := uint64(0); i < cnt; i++ {
+		le, n := btc.VLen(b[off:])
+		if n == 0 || off+n+le > len(b) {
+			bad("UTXO.db (block height %d) announces %d records but is cut short after %d", nd.Height, cnt, i)
+			return
+		}
+		off += n
+		rec := utxo.NewUtxoRecU(b[off : off+le])
+		off += le
+		for vout, o := range rec.Outs {
+			if o != nil {
+				got[OP{Tx: rec.TxID, Vout: uint32(vout)}] = refchain.Coin{Value: o.Value, Script: append([]byte{}, o.PKScr...), Height: rec.InBlock, Coinbase: rec.Coinbase}
+			}
+		}
+	}
+	if off != len(b) {
+		bad("UTXO.db has %d trailing bytes", len(b)-off)
+		return
+	}
+	ws, wh := refchain.Dump(s.M.UTXOAt(nd))
+	gs, gh := refchain.Dump(got)
+	if wh != gh {
+		bad("UTXO.db names block height %d but its records differ from that block's unspent set: %s", nd.Height, chainx.Diff(ws, gs))
+	}
+}
+
 // runScenario executes one schedule of a scenario on a fresh copy of the prefix.
 func runScenario(p *chainx.Prefix, sc scen, blocks []*reftx.Block, choose vsched.Chooser) (*vsched.Sched, string, string) {
 	var s *chainx.Sess
 	ctl(func() { s = p.NewSession("c11") })
+	curSess, snapViol = s, ""
+	defer func() { curSess = nil }()
 	var results []string
 	inBody := ""
 	closedInside := false
@@ -272,7 +350,14 @@ func runScenario(p *chainx.Prefix, sc scen, blocks []*reftx.Block, choose vsched
 		return sch, "aborted", ""
 	}
 	// all threads finished: the instance is quiescent, observe it natively
+	checkVisibleSnapshot()
+	if os.Getenv("C11_DEBUG") != "" {
+		fmt.Fprintln(os.Stderr, "DEBUG snapChecks", snapChecks, "snapViol", snapViol, "points", len(sch.Points))
+	}
 	errs := inBody
+	if snapViol != "" {
+		errs = "visible-snapshot-inconsistent: " + snapViol
+	}
 	obs := strings.Join(results, ",")
 	if !closedInside {
 		if k, w := s.Compare(); k != "" && errs == "" {
@@ -436,7 +521,9 @@ func main() {
 	utxo.UTXO_WRITING_TIME_TARGET = 0
 	_ = chain.AbortNow
 	_ = btc.COIN
+	vos.Hook = fileHook
 	if *racePass > 0 {
+		vos.Hook = nil
 		p := buildPrefix0()
 		racePassMain(p, scenarios(), *racePass)
 		p.Remove()
